@@ -1,4 +1,5 @@
 """C06 - InspectWrapper is a transparent pipe that isolates inspector faults."""
+import io
 import itertools
 
 import common
@@ -20,7 +21,11 @@ RULE = ('source streams of few chunks (zeros, random bytes, clean images of the 
         'the expected one included), a bounded family of allowed_formats, file-like (read) and iterator (next) '
         'sources; plus genuine parser errors raised by crafted content (VHDX bad region signature / region count / '
         'metadata signature on >= 256 KiB streams, VMDK bad version and descriptor location) with and without '
-        'injected faults; expected_format / allowed_formats passed as plain str or as (str, Enum) members, str '
+        'injected faults; the public interface used in every legal way of the pinned signatures - InspectWrapper(source, '
+        'expected_format=None, allowed_formats=None) with each optional argument positional / keyword / omitted / '
+        'keywords permuted, read(size) positional or by keyword with sizes None / -1 / -2 / 0 mixed with positive '
+        'ones on io.BytesIO and real files, iteration by next(), for, break-and-resume, iter() twice, next() after '
+        'StopIteration, close() twice; expected_format / allowed_formats passed as plain str or as (str, Enum) members, str '
         'subclasses, subclasses with their own __str__/__repr__/__format__; the exception type of a fault varied over 18 classes (struct.error, ImageFormatError, OSError, '
         'plain Exception subclasses ...) and its shape over 12 (no / empty / several / non-string / None / bytes '
         'arguments, arguments or classes whose str()/repr() raise, a 300 kB message), with the module logger silent '
@@ -56,7 +61,7 @@ def generate():
 
 
 def plan_cases(ctx):
-    """(label, data, sizes, allowed, expected, faults, iterator, debug logging on, name kind)"""
+    """(label, data, read ops, allowed, expected, faults, iterator, debug logging on, name kind, usage)"""
     rng = ctx.rng
     quick = ctx.quick
     streams = G.c06_streams(rng, quick)
@@ -162,7 +167,18 @@ def plan_cases(ctx):
     out = [c if len(c) == 8 else c + (rng.random() < 0.2,) for c in out]
     # ... and how expected_format / allowed_formats entries are passed: plain str, or an unusual but legal str
     # ((str, Enum) member, str subclass, subclass with its own __str__ / __repr__ / __format__) - same outcome
-    return [c + (rng.choice(['str', 'str', 'str'] + list(G.NAME_KINDS[1:])) if (c[4] or c[3]) else 'str',) for c in out]
+    out = [c + (rng.choice(['str', 'str', 'str'] + list(G.NAME_KINDS[1:])) if (c[4] or c[3]) else 'str',) for c in out]
+    # ... and how the public interface is used: constructor call form (every legal positional / keyword / omitted
+    # mixture of the pinned signature), read(size) by keyword, io.BytesIO or a real file, read sizes None / -1 /
+    # -2 / 0 mixed in, the iteration protocol (next, for, break and resume, iter() twice), close() twice
+    res = []
+    for c in out:
+        label, data, sizes, al, e, fl, it, log, nk = c
+        uu = G.pick_usage(rng, e, al, iterator=it, p_plain=0.55)
+        if not it and uu != G.DEFAULT_USAGE and rng.random() < 0.6:
+            sizes = G.vary_ops(sizes, len(data), rng, uu['source'])
+        res.append((label, data, sizes, al, e, fl, it, log, nk, uu))
+    return res
 
 
 def show_fault(f):
@@ -170,7 +186,7 @@ def show_fault(f):
     return '%s@%d' % (n, k) + ('' if kind == 'eat:RuntimeError' else '[%s]' % kind)
 
 
-def case_of(label, data, sizes, allowed, expected, faults, iterator, must_complete=False, log=False, names='str'):
+def case_of(label, data, sizes, allowed, expected, faults, iterator, must_complete=False, log=False, names='str', u=None):
     c = {'label': label, 'content': insp_impl.content_field(data), 'sizes': list(sizes), 'allowed': allowed,
          'expected': expected, 'faults': [list(f) for f in faults], 'iterator': bool(iterator)}
     if must_complete:
@@ -179,30 +195,45 @@ def case_of(label, data, sizes, allowed, expected, faults, iterator, must_comple
         c['debug_logging'] = True
     if names != 'str':
         c['names'] = names
+    if u and G.usage(u) != G.DEFAULT_USAGE:
+        c['usage'] = G.usage(u)
     return c
 
 
 def correspondence(ctx):
     cases = plan_cases(ctx)
-    lines = [G.fault_req(al, e, data, sizes, fl) for _, data, sizes, al, e, fl, _it, _log, _nk in cases]
+    lines = [G.fault_req(al, e, data, sizes, fl) for _, data, sizes, al, e, fl, _it, _log, _nk, _u in cases]
     replies = G.ask_par(ctx.driver, lines)
     out = []
-    for (label, data, sizes, al, e, fl, it, log, nk), rep in zip(cases, replies):
+    for (label, data, sizes, al, e, fl, it, log, nk, uu), rep in zip(cases, replies):
         ctx.evaluations += 1
         ctx.count('names-as/' + nk)
+        plain = uu == G.DEFAULT_USAGE and all(isinstance(x, int) and x >= 0 for x in sizes)
+        ctx.count('ctor-form/' + str(uu['form']))
+        if it:
+            ctx.count('iteration/' + uu['proto'])
+        else:
+            ctx.count('source/' + uu['source'])
+            if any(x is None or x < 0 for x in sizes):
+                ctx.count('read-sizes/with-None-or-negative')
         ctx.count('logger/' + ('debug+handler' if log else 'silent'))
-        if all(len(f) == 2 for f in fl):
+        if plain and all(len(f) == 2 for f in fl):
             try:
                 with G.debug_logging(log):
                     impl, info = insp_impl.run_fault(G.as_names(nk, al), G.as_name(nk, e), data, sizes, fl, iterator=it)
             except Exception as ex:
                 impl, info = 'ESCAPED:%s' % type(ex).__name__, {'end': 'escaped', 'errored': ()}
         else:       # typed / shaped / post_process / property faults: the instrumented runner, rendered the same way
-            with G.debug_logging(log):
-                t = G.pipe_trace(al, e, data, sizes, fl, it, name_kind=nk)
-            impl = G.render_trace(t)
-            info = {'end': impl.split('end=')[1].split('\t')[0], 'errored': t['errored']}
+            try:
+                with G.debug_logging(log):
+                    t = G.pipe_trace(al, e, data, sizes, fl, it, name_kind=nk, u=uu)
+                impl = G.render_trace(t)
+            except G.CallFormError as ex:
+                t, impl = {'errored': ()}, 'CALL-FORM-REJECTED: %s' % ex
+            info = {'end': impl.split('end=')[1].split('\t')[0] if 'end=' in impl else 'rejected', 'errored': t['errored']}
             for f in fl:
+                if len(f) < 3:
+                    continue
                 ctx.count('fault-kind/' + f[2].split(':')[0])
                 if ':' in f[2]:
                     ctx.count('fault-type/' + f[2].split(':')[1].split('/')[0])
@@ -213,13 +244,13 @@ def correspondence(ctx):
         ctx.count('faults/%d' % min(len(fl), 3))
         ctx.count('expected/' + ('none' if not e else 'given'))
         if info['errored'] or info['end'] != 'done':
-            ctx.nontrivial((G.digest(data), tuple(sizes), tuple(fl), e, tuple(al or ()), it, log, nk))
+            ctx.nontrivial((G.digest(data), tuple(sizes), tuple(fl), e, tuple(al or ()), it, log, nk, str(sorted(uu.items()))))
         if ctx.evaluations % 331 == 1:
             ctx.sample({'stream': label, 'chunk_sizes': sizes, 'expected_format': e, 'allowed_formats': al,
                         'faults': [show_fault(f) for f in fl], 'source': 'iterator' if it else 'file-like',
                         'implementation': ci.replace('\t', ' | ')}, 8)
         if ci != cm:
-            out.append(Disagreement(case_of(label, data, sizes, al, e, fl, it, log=log, names=nk), ci, cm))
+            out.append(Disagreement(case_of(label, data, sizes, al, e, fl, it, log=log, names=nk, u=uu), ci, cm))
     ctx.exhaustive = True
     return out
 
@@ -227,25 +258,31 @@ def correspondence(ctx):
 # --------------------------------------------------------------------------
 # failing-input search: the property on the implementation only
 
-def oracle(allowed, expected, data, sizes, faults, iterator, must_complete=False, log=False, names='str'):
+def oracle(allowed, expected, data, sizes, faults, iterator, must_complete=False, log=False, names='str', u=None):
     """`must_complete`: the content matches the expected format and no fault is planned for that inspector,
     so the reader must get every byte and no exception"""
     F = G.fi()
-    with G.debug_logging(log):
-        t = G.pipe_trace(allowed, expected, data, sizes, faults, iterator, name_kind=names)
+    try:
+        with G.debug_logging(log):
+            t = G.pipe_trace(allowed, expected, data, sizes, faults, iterator, name_kind=names, u=u)
+    except G.CallFormError as ex:
+        return str(ex)
+    if set(t['names']) - (set(allowed) if allowed else set(G.ALLF)):
+        return 'inspectors outside allowed_formats are being fed: %s' % sorted(set(t['names']) - set(allowed or G.ALLF))
     chunks, out, (end, exc), ev = t['chunks'], t['out'], t['end'], t['events']
     m = len(out)
     if t['fed_after_finish']:
         name, k = t['fed_after_finish'][0]
         return ('the wrapper finished inspector %s while the stream was still being read and fed it chunk %d '
                 'afterwards%s' % (name, k, '' if end == 'done' else ' (%s reached the reader)' % type(exc).__name__))
-    if must_complete and (end != 'done' or b''.join(out) != data[:sum(sizes)]):
+    if must_complete and (end != 'done' or b''.join(out) != data[:sum(len(c) for c in chunks)]):
         return ('content matches expected_format=%s and that inspector has no fault, but the stream ended with %s '
                 'after %d of %d reads' % (expected, type(exc).__name__ if exc is not None else end, m, len(sizes)))
     # transparent pipe: the reader gets exactly the source's chunks, in order
     for k, (a, b) in enumerate(zip(out, chunks)):
         if a != b:
-            return 'chunk %d handed to the reader differs from the source chunk' % k
+            return 'chunk %d handed to the reader differs from what the source returned (%d bytes instead of %d%s)' % (
+                k, len(a), len(b), '' if iterator else ', read size %r' % (list(sizes)[k],))
     if b''.join(out) != data[:sum(len(c) for c in chunks[:m])]:
         return 'bytes out differ from bytes in'
     if end == 'extra-item':
@@ -320,14 +357,27 @@ def search(ctx, seeds, full=False):
     fails = []
     kinds = {}
 
-    def run(label, data, sizes, al, e, fl, it, mc=False, log=False, names=None):
+    def run(label, data, sizes, al, e, fl, it, mc=False, log=False, names=None, u=None):
         ctx.evaluations += 1
         fl = [tuple(f) for f in fl]
         if names is None:       # how expected_format / allowed_formats are passed: mostly plain, sometimes a str subclass
             names = 'str' if not (e or al) or rng.random() < 0.6 else rng.choice(G.NAME_KINDS[1:])
-        why = oracle(al, e, data, sizes, fl, it, mc, log, names)
-        if why and names != 'str' and oracle(al, e, data, sizes, fl, it, mc, log, 'str'):
+        if u is None:           # how the public interface is used (call form, read sizes, source, iteration protocol)
+            u = G.pick_usage(rng, e, al, iterator=it, p_plain=0.5)
+            if not it and u != G.DEFAULT_USAGE and rng.random() < 0.6:
+                sizes = G.vary_ops(sizes, len(data), rng, u['source'])
+        why = oracle(al, e, data, sizes, fl, it, mc, log, names, u)
+        if why and names != 'str' and oracle(al, e, data, sizes, fl, it, mc, log, 'str', u):
             names = 'str'
+        if why and u != G.DEFAULT_USAGE:
+            # which part of the usage matters? drop what does not
+            for key in ('form', 'read_kw', 'source', 'proto', 'close_twice'):
+                v = dict(u, **{key: G.DEFAULT_USAGE[key]})
+                if v != u and oracle(al, e, data, sizes, fl, it, mc, log, names, v):
+                    u = v
+            plain = G.effective(len(data), sizes)
+            if plain != list(sizes) and oracle(al, e, data, plain, fl, it, mc, log, names, u):
+                sizes = plain
         if not why:
             return
         kind = ' '.join(w for w in why.split(' ') if not any(ch.isdigit() for ch in w))[:70]
@@ -336,17 +386,20 @@ def search(ctx, seeds, full=False):
             return
         # shrink: fewer faults, then no allowed_formats restriction
         def still(sub):
-            return oracle(al, e, data, sizes, sub, it, mc, log, names) is not None
+            return oracle(al, e, data, sizes, sub, it, mc, log, names, u) is not None
         small = fl
         if len(fl) > 1:
             small = common.shrink_list(fl, still, max_steps=40)
-        if fl and oracle(al, e, data, sizes, [], it, mc, log, names):
+        if fl and oracle(al, e, data, sizes, [], it, mc, log, names, u):
             small = []
-        if log and oracle(al, e, data, sizes, small, it, mc, False, names):
+        if log and oracle(al, e, data, sizes, small, it, mc, False, names, u):
             log = False
-        fails.append(Failure(case_of(label, data, sizes, al, e, small, it, mc, log, names),
-                             {'kind': kind, 'what': '%s: %s%s%s' % (
-                                 label, oracle(al, e, data, sizes, small, it, mc, log, names),
+        fails.append(Failure(case_of(label, data, sizes, al, e, small, it, mc, log, names, u),
+                             {'kind': kind, 'what': '%s: %s%s%s%s' % (
+                                 label, oracle(al, e, data, sizes, small, it, mc, log, names, u),
+                                 '' if u == G.DEFAULT_USAGE else ' [usage: %s; read ops %s]' % (
+                                     ', '.join('%s=%s' % (k_, v_) for k_, v_ in sorted(u.items())
+                                               if v_ != G.DEFAULT_USAGE.get(k_)), list(sizes)[:12]),
                                  ' [logger at DEBUG with a handler]' if log else '',
                                  '' if names == 'str' else ' [expected_format / allowed_formats passed as %s; with plain '
                                  'str the property holds]' % names)}))
@@ -354,10 +407,11 @@ def search(ctx, seeds, full=False):
     for s in seeds[:300]:
         run(s.get('label', 'seed'), G.decode_content(s['content']), s['sizes'], s.get('allowed'), s.get('expected'),
             s.get('faults', []), s.get('iterator', False), s.get('must_complete', False), s.get('debug_logging', False),
-            s.get('names', 'str'))
-        run(s.get('label', 'seed'), G.decode_content(s['content']), s['sizes'], s.get('allowed'), s.get('expected'),
-            s.get('faults', []), not s.get('iterator', False), s.get('must_complete', False),
-            s.get('debug_logging', False), s.get('names', 'str'))
+            s.get('names', 'str'), G.usage(s.get('usage')))
+        if all(isinstance(x, int) and x >= 0 for x in s['sizes']):      # the other source kind, usage picked afresh
+            run(s.get('label', 'seed'), G.decode_content(s['content']), s['sizes'], s.get('allowed'), s.get('expected'),
+                s.get('faults', []), not s.get('iterator', False), s.get('must_complete', False),
+                s.get('debug_logging', False), s.get('names', 'str'))
     streams = G.c06_streams(rng, ctx.quick)
     exps = [None] + G.ALLF
     # matching content, zero-length reads in mid-stream and reads after EOF: every byte, no exception
@@ -443,8 +497,17 @@ def replay(ctx, payload):
     nk = case.get('names', 'str')
     if nk != 'str':
         print('expected_format / allowed_formats passed as %s: %r' % (nk, G.as_name(nk, e)))
-    with G.debug_logging(log):
-        t = G.pipe_trace(al, e, data, sizes, fl, it, name_kind=nk)
+    uu = G.usage(case.get('usage'))
+    if uu != G.DEFAULT_USAGE:
+        print('usage: %s' % ', '.join('%s=%s' % kv for kv in sorted(uu.items()) if kv[1] != G.DEFAULT_USAGE.get(kv[0])))
+        if uu['form']:
+            print('       ' + G.render_call('InspectWrapper', [io.BytesIO(), e, al or None], uu['form']))
+    try:
+        with G.debug_logging(log):
+            t = G.pipe_trace(al, e, data, sizes, fl, it, name_kind=nk, u=uu)
+    except G.CallFormError as ex:
+        print('implementation:', ex)
+        return 1
     print('implementation:', G.canon_fault(G.render_trace(t), e).replace('\t', ' | '))
     if t['prop_reads']:
         print('                faulty properties read:', sorted(set((n, p_, k) for n, p_, k, _ in t['prop_reads']))[:8])
@@ -453,7 +516,7 @@ def replay(ctx, payload):
         print('model         :', G.canon_fault(model, e).replace('\t', ' | '))
     except ValueError as ve:
         print('model         : (%s)' % ve)
-    why = oracle(al, e, data, sizes, fl, it, case.get('must_complete', False), log, nk)
+    why = oracle(al, e, data, sizes, fl, it, case.get('must_complete', False), log, nk, uu)
     print('property oracle on the implementation:', why)
     return 1 if why else 0
 
